@@ -16,6 +16,20 @@ def plan(b):
     return units
 
 
+SMALL = dict(N=4, K=2, depths=(1, 2), modes=("r0", "rp", "rd"), grouped=(False,))
+
+
+def interp_units(tier):
+    """The interpreter-configuration axis: the whole SMALL block (every configuration of <= 2 hits) and the `ctx` stream family,
+    executed by child interpreters started with -O and -OO (assert statements stripped)."""
+    from mdmc import core
+    out = []
+    for flag in core.INTERP_FLAGS:
+        out.append(("interp", flag, (tier, "small")))
+        out += [("interp", flag, (tier, "small-streams", i, 6)) for i in range(6)]
+    return out
+
+
 def run_config(rec, clause_total, T, hits, depth, mode, grouped, on_run):
     size = len(hits) * 100 + max(depth, 0) * 10 + hitx.MODES.index(mode) + (5 if grouped else 0)
     w = {"engine": "hitx", "T": T, "hits": [list(h) for h in hits], "depth": depth, "mode": mode, "grouped": grouped}
@@ -50,6 +64,19 @@ def run_unit(unit, rec, b, clause_total, on_run, on_case, stream_depths=(10,)):
                     "depths": list(blk["depths"]), "modes": list(blk["modes"])})
     elif kind == "stream":
         streams.run_unit(unit[1], rec, on_case, depths=stream_depths)
+    elif kind == "small":
+        T = hitx.text_for(SMALL["N"], False)
+        n = 0
+        for first in hitx.candidates(SMALL["N"], hitx.KINDS):
+            for hits in hitx.configs_from(first, SMALL["N"], SMALL["K"], kinds=hitx.KINDS):
+                for depth in SMALL["depths"]:
+                    for mode in SMALL["modes"]:
+                        run_config(rec, clause_total, T, hits, depth, mode, False, on_run)
+                        n += 1
+        rec.sample({"unit": "small", "text": T, "configurations": n})
+    elif kind == "small-streams":
+        for u in streams.plan("quick", lite=1, fams=["ctx", "mix"])[unit[1]::unit[2]]:
+            streams.run_unit(u, rec, on_case, depths=stream_depths)
 
 
 def replay(w, rec, clause_total, on_run, on_case):
@@ -66,5 +93,6 @@ RULE_PREFIX = (
     "registry whose entries are wrapped to record every returned hit before the engine touches it; 'streams' = every distinct byte "
     "string spelled by <=L tokens of each scan-level family (mdmc/families.py), scanned with the shipped decoders + fixture keywords "
     "under the same wrappers. states = distinct reference-machine states (open-context chain, decoded-region end, text length) "
-    "visited, transitions = hits processed, traces = executions checked by the monitor. "
+    "visited, transitions = hits processed, traces = executions checked by the monitor. Interpreter axis: the block N=4,K<=2,depths 1-2,modes r0/rp/rd and the "
+    "`ctx`/`mix` stream families (L-1) are additionally executed in child interpreters started with -O and -OO (assert statements stripped). "
 )
